@@ -20,6 +20,7 @@ def timeoutsIn (dels : List (Nat × Resp)) : List Nat :=
 
 def expiredOf : Op → List Nat
   | .req id (.past _) => [id]
+  | .req id .pastBlock => [id]
   | _ => []
 
 def Acc.after (a : Acc) (op : Op) (o : Obs) : Acc :=
@@ -34,6 +35,8 @@ def specObs (a : Acc) (op : Op) (o : Obs) : Verdict :=
   | none =>
     match op with
     | .req id (.past _) =>
+      if o.sent.contains id then .fail "expired-request-written" [V.ofNat a.idx, V.ofNat id] else .ok
+    | .req id .pastBlock =>
       if o.sent.contains id then .fail "expired-request-written" [V.ofNat a.idx, V.ofNat id] else .ok
     | _ => .ok
 
